@@ -276,6 +276,15 @@ def regression_items():
                 "doc": {"title": "n", "logsource": {"category": "c"}, "detection": {"sel": {"g|contains": None}, "condition": "sel"}}})
     its.append({"kind": "validate", "regress": "signull", "validators": ["AllWithoutContainsModifierValidator", "DanglingDetectionValidator"],
                 "docs": [{"title": "n", "logsource": {"category": "c"}, "detection": {"sel": {"a": 1}, "u": {"g|all": [None, "x"]}, "condition": "sel"}}]})
+    # af98f4f: the convert_type error text carried the transformation's repr (pipeline with tracking sets)
+    its.append({"kind": "convert", "regress": "af98f4f", "collect": True,
+                "docs": [{"title": "t", "logsource": {"category": "c"}, "detection": {"sel": {"a": "x1", "b": "y", "c": "z", "d": "w"}, "condition": "sel"}}],
+                "pipelines": [pipe([{"id": "m1", "type": "field_name_mapping", "mapping": {"a": ["a1", "a2", "a3"], "b": ["b1", "b2"]}},
+                                    {"id": "m2", "type": "field_name_suffix", "suffix": ".s"}, {"id": "m3", "type": "field_name_prefix", "prefix": "p."},
+                                    {"id": "cv", "type": "convert_type", "target_type": "num"}])]})
+    # 1a4946c: a modifier applied to an incompatible regular expression value printed the flag set in hash order
+    its.append({"kind": "load", "what": "rule", "regress": "1a4946c",
+                "doc": {"title": "n", "logsource": {"category": "c"}, "detection": {"sel": {"a|re|i|m|s|base64": "x.*"}, "condition": "sel"}}})
     return its
 
 
